@@ -49,12 +49,12 @@ type Key struct {
 
 // CheckDef is a CHECK constraint over the fragment: col op const | colA < colB.
 type CheckDef struct {
-	Name string
-	A    int
-	Op   string // "<", "<>", ">="
-	B    int    // column index when BIsCol
+	Name   string
+	A      int
+	Op     string // "<", "<>", ">="
+	B      int    // column index when BIsCol
 	BIsCol bool
-	C    int64
+	C      int64
 }
 
 // TableDef is a table of the fragment.
